@@ -12,6 +12,7 @@ import (
 	"fmt"
 	"os"
 	"path/filepath"
+	"regexp"
 	"runtime"
 	"runtime/debug"
 	"sort"
@@ -90,6 +91,10 @@ func Bubble(t *testing.T, f func()) (pv any, stack string) {
 		}()
 		f()
 	})
+	if d, ok := pv.(ErrDiverged); ok {
+		// a replayed prefix did not fit: propagate to the explorer (outside the bubble)
+		panic(d)
+	}
 	return
 }
 
@@ -181,6 +186,10 @@ type Cell struct {
 	deadline    time.Time
 	Fatal       bool // set when the cell cannot continue (execution aborted)
 	DebugLog    []string
+	probing     bool
+	probeSeen   map[string]bool
+	deferEmit   bool
+	unconfirmed []int
 }
 
 // Thorough tells whether the thorough tier is running.
@@ -235,13 +244,75 @@ func (x *Cell) TimeUp() bool { return !x.deadline.IsZero() && time.Now().After(x
 
 // Violate records a violation (deduplicated by signature; at most 3 replays kept per signature).
 func (x *Cell) Violate(prop, sig, msg string, replay any) {
+	if x.probing {
+		x.probeSeen[prop+"|"+sig] = true
+		return
+	}
 	x.seenSig[prop+"|"+sig]++
 	if x.seenSig[prop+"|"+sig] > 1 {
 		return
 	}
 	v := Violation{Property: prop, Signature: sig, Message: msg, Replay: replay, Cell: x.Name, Pkg: x.Pkg}
 	x.Violations = append(x.Violations, v)
+	if x.deferEmit {
+		x.unconfirmed = append(x.unconfirmed, len(x.Violations)-1)
+		return
+	}
 	emit(map[string]any{"t": "violation", "v": v})
+}
+
+// confirm re-executes `again` (the same execution) n times and keeps only the pending violations
+// whose signature recurred every time; the others are dropped and counted as nondeterministic.
+func (x *Cell) confirm(n int, again func()) {
+	if len(x.unconfirmed) == 0 {
+		return
+	}
+	pend := x.unconfirmed
+	x.unconfirmed = nil
+	ok := make([]bool, len(pend))
+	for i := range ok {
+		ok[i] = true
+	}
+	for k := 0; k < n; k++ {
+		x.probing, x.probeSeen = true, map[string]bool{}
+		func() {
+			defer func() {
+				if r := recover(); r != nil {
+					if _, d := r.(ErrDiverged); !d {
+						x.probing = false
+						panic(r)
+					}
+				}
+			}()
+			again()
+		}()
+		x.probing = false
+		for i, idx := range pend {
+			v := x.Violations[idx]
+			if !x.probeSeen[v.Property+"|"+v.Signature] {
+				ok[i] = false
+			}
+		}
+	}
+	var keep []Violation
+	drop := map[int]bool{}
+	for i, idx := range pend {
+		if ok[i] {
+			emit(map[string]any{"t": "violation", "v": x.Violations[idx]})
+		} else {
+			drop[idx] = true
+			v := x.Violations[idx]
+			delete(x.seenSig, v.Property+"|"+v.Signature)
+			x.Note("nondeterministic_discarded", 1)
+			emit(map[string]any{"t": "nondet", "dropped_violation": v.Signature})
+		}
+	}
+	for i, v := range x.Violations {
+		if !drop[i] {
+			keep = append(keep, v)
+		}
+	}
+	x.Violations = keep
 }
 
 type cellReg struct {
@@ -460,3 +531,88 @@ func Parked() int64 { return core.Parked() }
 
 // NewCellForDebug makes a throw-away cell (debug tests only).
 func NewCellForDebug(t *testing.T) *Cell { return newCell(t, "DBG", "quick", "debug", "debug", 0) }
+
+// Die ends the worker process right now (exit code 3) after flushing the cell's
+// results. Used when an execution detected a violation that leaves goroutines
+// blocked forever on something the harness cannot release, so the bubble cannot end.
+func (x *Cell) Die() {
+	if os.Getenv("VERIF_DEBUG") != "" {
+		for _, v := range x.Violations {
+			fmt.Println("VIOLATION(debug):", v.Property, v.Signature, "\n", v.Message)
+		}
+	}
+	// violations recorded in this (never finishing) execution cannot be re-executed in this process: emit them now
+	for _, idx := range x.unconfirmed {
+		if idx < len(x.Violations) {
+			emit(map[string]any{"t": "violation", "v": x.Violations[idx]})
+		}
+	}
+	x.unconfirmed = nil
+	x.Fatal = true
+	x.Exhaustive = false
+	x.finish(-1)
+	os.Exit(3)
+}
+
+// BlockedStacks returns the stacks of goroutines of this process that are blocked inside
+// go-data-transfer code (trimmed), to explain a call that did not return.
+func BlockedStacks(max int) string {
+	buf := make([]byte, 1<<20)
+	n := runtime.Stack(buf, true)
+	var out []string
+	for _, g := range strings.Split(string(buf[:n]), "\n\n") {
+		if !(strings.Contains(g, "go-data-transfer/v2/") || strings.Contains(g, "go-statemachine")) || strings.Contains(g, "[running") {
+			continue
+		}
+		if strings.Contains(g, "sched.(*Sched).point") || strings.Contains(g, "sched.(*Sched).startPoint") {
+			continue
+		}
+		lines := strings.Split(g, "\n")
+		var keep []string
+		keep = append(keep, lines[0])
+		for _, l := range lines[1:] {
+			if strings.Contains(l, "go-data-transfer/v2/") || strings.Contains(l, "go-statemachine") || strings.Contains(l, "verif/") {
+				if !strings.HasPrefix(l, "\t") {
+					keep = append(keep, "  "+strings.TrimSpace(l))
+				}
+			}
+		}
+		out = append(out, strings.Join(keep, "\n"))
+		if len(out) >= max {
+			break
+		}
+	}
+	return strings.Join(out, "\n")
+}
+
+// Abandon ends the worker process (exit code 3) without a verdict for the current execution:
+// the remaining exploration of this cell is reported as a cap with the given reason.
+func (x *Cell) Abandon(reason string) {
+	x.unconfirmed = nil
+	x.Cap("cell abandoned: " + reason)
+	x.finish(-1)
+	os.Exit(3)
+}
+
+var reBlockedFn = regexp.MustCompile(`go-data-transfer/v2/[A-Za-z0-9_/]*?([A-Za-z0-9_]+\.(?:\(\*?[A-Za-z0-9_]+\)\.)?[A-Za-z0-9_]+)(?:\.func[0-9.]*)?\(`)
+
+// BlockedSites returns, sorted and de-duplicated, the innermost go-data-transfer function of every
+// goroutine that is blocked inside the library (used to build stable violation signatures).
+func BlockedSites() []string {
+	st := BlockedStacks(50)
+	seen := map[string]bool{}
+	for _, g := range strings.Split(st, "\ngoroutine ") {
+		for _, l := range strings.Split(g, "\n") {
+			if m := reBlockedFn.FindStringSubmatch(l); m != nil {
+				seen[m[1]] = true
+				break
+			}
+		}
+	}
+	out := make([]string, 0, len(seen))
+	for k := range seen {
+		out = append(out, k)
+	}
+	sort.Strings(out)
+	return out
+}
